@@ -535,6 +535,13 @@ func C08Plan() *vlib.Plan {
 				return res
 			}})
 		}
+		yield(vlib.Case{ID: "encode-type-names", Run: func() *vlib.Result {
+			res := &vlib.Result{}
+			for st := stNoKey; st <= stKeyedClear; st++ {
+				c08TypeNames(res, st)
+			}
+			return res
+		}})
 		// encode side: attribute names that look like wire-layout pieces, each with a few values
 		for st := stNoKey; st <= stKeyedClear; st++ {
 			st := st
@@ -678,4 +685,66 @@ func c08RawSenders(res *vlib.Result, exprs []string, st c09State) {
 		}
 	}
 	res.Outcome("raw-senders-ok")
+}
+
+// c08TypeNames: "the sender's ... type names" for names that are not plain ASCII words - the
+// three receivers must hand back (or skip) exactly the type names the sender put.
+func c08TypeNames(res *vlib.Result, st c09State) {
+	ctx := context.Background()
+	names := []string{"Machine", "Job", "Maschine_ü", "ジョブ", "Type With Blanks", "t", "ÜBER", "a.b-c", "Scheduler", strings.Repeat("LongType", 12)} // (the raw-text receiver takes anything over 128 bytes for a framing desync, by design)
+	for i, my := range names {
+		target := names[(i*3+1)%len(names)]
+		res.Evals++
+		res.Nontrivial++
+		ad := classad.New()
+		_ = ad.Set("Attr0", 7)
+		_ = ad.Set("MyType", my)
+		_ = ad.Set("TargetType", target)
+		sb := &netsim.Buf{}
+		m := message.NewMessageForStream(c09Stream(st, sb))
+		err := m.PutClassAd(ctx, ad)
+		if err == nil {
+			err = m.PutInt(ctx, 31337)
+		}
+		if err == nil {
+			err = m.FinishMessage(ctx)
+		}
+		id := fmt.Sprintf("MyType=%q TargetType=%q state=%v", my, target, st)
+		if err != nil {
+			res.Violate("C08/type-names/put-error", "%s: %v", id, err)
+			continue
+		}
+		for _, rk := range []string{"parse", "raw", "skip"} {
+			rm := message.NewMessageFromStream(c09Stream(st, &netsim.Buf{R: sb.W}))
+			var got *classad.ClassAd
+			var err error
+			switch rk {
+			case "parse":
+				got, err = rm.GetClassAd(ctx)
+			case "raw":
+				var txt string
+				if txt, err = rm.GetClassAdRaw(ctx); err == nil {
+					got, err = classad.ParseOld(txt)
+				}
+			case "skip":
+				err = rm.SkipClassAdRaw(ctx)
+			}
+			if err != nil {
+				res.Violate("C08/type-names/"+rk+"-receiver-error", "%s: %v", id, err)
+				continue
+			}
+			if s, e2 := rm.GetInt(ctx); e2 != nil || s != 31337 {
+				res.Violate("C08/type-names/"+rk+"-bytes-consumed", "%s: sentinel %d %v", id, s, e2)
+				continue
+			}
+			if got != nil {
+				mt, _ := got.EvaluateAttrString("MyType")
+				tt, _ := got.EvaluateAttrString("TargetType")
+				if mt != my || tt != target {
+					res.Violate("C08/type-names/"+rk+"-differs", "%s: receiver has MyType=%q TargetType=%q", id, mt, tt)
+				}
+			}
+		}
+	}
+	res.Outcome("type-names-ok")
 }
